@@ -352,6 +352,47 @@ func checkHoistUnderConjunctionOnly(r *Run) {
 			} else {
 				r.Fail(rule, construct, cc.Pos(), "a relationship kind test is moved from WHERE into the match pattern without checking for %v ancestors: Or(KindIn(r, A), r.x = 1) renders as `match ()-[r:A]->() where r.x = $p0`, the conjunction of the two", missing)
 			}
+			// hoist-once: the pattern's kinds are alternatives, so the append must be conditional on the pattern having none
+			for _, st := range cc.Body {
+				ast.Inspect(st, func(m ast.Node) bool {
+					as, ok := m.(*ast.AssignStmt)
+					if !ok || len(as.Lhs) != 1 {
+						return true
+					}
+					sel, ok := ast.Unparen(as.Lhs[0]).(*ast.SelectorExpr)
+					if !ok || sel.Sel.Name != "Kinds" {
+						return true
+					}
+					emptyGuard := false
+					for _, l := range pathConditions(fd.Body, as) {
+						ast.Inspect(l.Expr, func(k ast.Node) bool {
+							be, ok := k.(*ast.BinaryExpr)
+							if !ok {
+								return true
+							}
+							if call, ok := ast.Unparen(be.X).(*ast.CallExpr); ok && len(call.Args) == 1 {
+								if id, ok := call.Fun.(*ast.Ident); ok && id.Name == "len" {
+									if s2, ok := ast.Unparen(call.Args[0]).(*ast.SelectorExpr); ok && s2.Sel.Name == "Kinds" {
+										if tv, has := info.Types[be.Y]; has && tv.Value != nil && tv.Value.String() == "0" {
+											if (be.Op == token.EQL && !l.Neg) || ((be.Op == token.NEQ || be.Op == token.GTR) && l.Neg) {
+												emptyGuard = true
+											}
+										}
+									}
+								}
+							}
+							return true
+						})
+					}
+					c2 := shortFuncName(fn) + ":kind-matcher-hoist-once"
+					if emptyGuard {
+						r.Pass(rule, c2, as.Pos(), "a kind test is moved into the pattern only while the pattern has no kinds yet")
+					} else {
+						r.Fail(rule, c2, as.Pos(), "every relationship kind test is appended to the pattern's kinds, which are alternatives: And(KindIn(r, A, B), KindIn(r, B, C)) renders as [r:A|B|B|C], any of the three, instead of the intersection")
+					}
+					return true
+				})
+			}
 			return true
 		})
 	}
